@@ -353,7 +353,10 @@ StopAny ==
   /\ UNCHANGED <<jobs, work, cq, wk, rank, ans, cnt>>
   /\ Finish([NoAct EXCEPT !.op = "Stop"])
 
-Stop == (Settled \/ dsp = "dead") /\ StopAny
+\* Stop may also come while the dispatcher is inside the hand-off (offering the
+\* head job to a free worker that has not taken it yet): it leaves through the
+\* quit case of that inner select and must tell every live batch all the same.
+Stop == (Settled \/ Offering \/ dsp = "dead") /\ StopAny
 
 Init ==
   /\ bat = <<>> /\ jobs = <<>> /\ work = {} /\ cq = {}
